@@ -191,7 +191,7 @@ func evalOne(c *wctx, p *prog, iset int, refHint *outcome) evalResult {
 	}
 
 	// ---- absolute expectations (wrapper programs) -----------------------------------------------
-	checkExpect(p, &k1, add)
+	checkExpect(p, iset, &k1, add)
 	if p.onKVM != nil {
 		p.onKVM(iset, &k1)
 	}
@@ -276,7 +276,19 @@ func evalOne(c *wctx, p *prog, iset int, refHint *outcome) evalResult {
 // checkExpect evaluates the absolute expectations of a wrapper program on the KVM outcome.
 // An expectation prefixed "always:" holds even when a frame ran out of gas; the others only
 // when no frame did.
-func checkExpect(p *prog, k *outcome, add func(kind, detail string)) {
+func checkNoChange(k *outcome, add func(kind, detail string)) {
+	pa, ps := stateDigest(k.pre(), k.tr.addrs, k.tr.slots)
+	a, s := stateDigest(k.st, k.tr.addrs, k.tr.slots)
+	if len(k.logs) != 0 {
+		add("expect-nochange", "a log survived: "+logsString(k.logs))
+	} else if a != pa {
+		add("expect-nochange", "account state changed: "+diffLines(a, pa))
+	} else if s != ps {
+		add("expect-nochange", "storage changed: "+diffLines(s, ps))
+	}
+}
+
+func checkExpect(p *prog, iset int, k *outcome, add func(kind, detail string)) {
 	if len(p.expect) == 0 {
 		return
 	}
@@ -300,14 +312,21 @@ func checkExpect(p *prog, k *outcome, add func(kind, detail string)) {
 				add("expect-return", fmt.Sprintf("expected word %d of the return data = 0x%s, got %s", idx, hexv, short(k.ret)))
 			}
 		case e == "nochange":
-			pa, ps := stateDigest(k.pre(), k.tr.addrs, k.tr.slots)
-			a, s := stateDigest(k.st, k.tr.addrs, k.tr.slots)
-			if len(k.logs) != 0 {
-				add("expect-nochange", "a log survived: "+logsString(k.logs))
-			} else if a != pa {
-				add("expect-nochange", "account state changed: "+diffLines(a, pa))
-			} else if s != ps {
-				add("expect-nochange", "storage changed: "+diffLines(s, ps))
+			checkNoChange(k, add)
+		case strings.HasPrefix(e, "iffail:"):
+			// "iffail:nochange" / "iffail:gasleft=<n>": only when the top-level call failed (not reverted)
+			if k.status != stFail {
+				break
+			}
+			switch rest := e[len("iffail:"):]; {
+			case rest == "nochange":
+				checkNoChange(k, add)
+			case strings.HasPrefix(rest, "gasleft="):
+				var n uint64
+				fmt.Sscanf(rest, "gasleft=%d", &n)
+				if k.gasLeft != n {
+					add("expect-gas-consumed", fmt.Sprintf("a failed frame consumes the gas it was given: expected %d gas left, got %d", n, k.gasLeft))
+				}
 			}
 		case e == "changed":
 			pa, ps := stateDigest(k.pre(), k.tr.addrs, k.tr.slots)
@@ -356,7 +375,22 @@ func checkExpect(p *prog, k *outcome, add func(kind, detail string)) {
 					break
 				}
 			}
-			if h, ok := holds(parts[len(parts)-1]); ok && !h {
+			last := parts[len(parts)-1]
+			if last == "nochange" {
+				checkNoChange(k, add)
+				break
+			}
+			if strings.HasPrefix(last, "gasleft-v") {
+				// "gasleft-v1=<n>": leftover gas of the top-level call under that instruction set
+				var is int
+				var n uint64
+				fmt.Sscanf(last, "gasleft-v%d=%d", &is, &n)
+				if is-1 == iset && k.gasLeft != n {
+					add("expect-gas-consumed", fmt.Sprintf("a failed frame consumes the gas it was given: expected %d gas left (the same failing call with 1000 gas less left 1000 more), got %d", n, k.gasLeft))
+				}
+				break
+			}
+			if h, ok := holds(last); ok && !h {
 				add("expect-return", fmt.Sprintf("expected %s, got %s", e, short(k.ret)))
 			}
 		case strings.HasPrefix(e, "maxdepth="):
